@@ -163,6 +163,18 @@ def run(ctx):
                 ctx.check(okh, "D4-HEX", fn, "ok-path-%d" % i, "Ok(String built by a loop appending {:02x} of every finalize() byte in order)",
                           "the result is a String accumulated in this function but %s" % why, fn_span(body))
                 continue
+            if is_call(hv, "Iterator::collect") and len(call_args(hv)) == 1 and is_call(strip_refs(call_args(hv)[0]), "Iterator::map"):
+                # the same encoding as finalize().iter().map(|b| format!("{b:02x}")).collect::<String>(): String's FromIterator<String> appends
+                # the pieces in iteration order (the value is returned as the function's String, so the collection is a String)
+                mp = strip_refs(call_args(hv)[0])
+                it = strip_refs(call_args(mp)[0])
+                good = is_call(it, "::iter") and is_call(strip_refs(call_args(it)[0]), "::finalize")
+                clo = strip_refs(call_args(mp)[1])
+                ckey = clo[2] if isinstance(clo, tuple) and clo[0] == "agg" and clo[1] == "closure" else None
+                good = good and ckey is not None and check_hex_closure(ctx, fx, fn, ckey, sp["hex_template"], mapped=True)
+                ctx.check(good, "D4-HEX", fn, "ok-path-%d" % i, "Ok(collect(map(iter(finalize(hasher)), hex closure)))",
+                          "Ok value is %s; expected every byte of the whole finalize() output, in order, mapped to its two hex digits and collected" % term_str(v)[:200], fn_span(body))
+                continue
             good = is_call(v, "::fold")
             detail = term_str(v)
             if good:
@@ -308,16 +320,30 @@ def hex_helper(ctx, fx, hk, template, inline=False):
     return True, ""
 
 
-def check_hex_closure(ctx, fx, owner, ckey, template):
+def check_hex_closure(ctx, fx, owner, ckey, template, mapped=False):
     body = ctx.body(ckey)
     if body is None:
-        return
+        return False
     sites = fmt_sites_in(fx, body)
     tmpl = [fmt_template(s) for s in sites]
     ctx.check(tmpl == [template], "D4-HEXFMT", ckey, "template",
               "format template %s" % tmpl, "hex closure formats with %s, expected exactly [%r] (two lower-case hex digits per byte)" % (tmpl, template),
               fn_span(body))
     paths = ctx.paths(ckey)
+    if mapped:
+        # |b| format!("{b:02x}"): the value returned is the formatted byte handed in
+        allok = bool(ret_paths(paths))
+        for i, p in enumerate(ret_paths(paths)):
+            hx = [e for e in p.events if e.kind == "call" and "Argument" in e.path and "::new_" in e.path]
+            okarg = len(hx) == 1 and hx[0].path.endswith("new_lower_hex") and deval(hx[0].args[0]) == ("param", 2)
+            r = strip_refs(p.end[1])
+            if is_call(r, "hint::must_use") and len(call_args(r)) == 1:
+                r = strip_refs(call_args(r)[0])
+            okret = is_call(r, "fmt::format") and len(find_calls(p.end[1], "fmt::format")) == 1
+            ctx.check(okarg and okret, "D4-HEXFMT", ckey, "body-%d" % i, "returns format!(LowerHex(byte))",
+                      "closure does not return the formatted byte it is handed (arg=%s ret=%s)" % (okarg, term_str(p.end[1])[:120]), fn_span(body))
+            allok = allok and okarg and okret
+        return allok and tmpl == [template]
     for i, p in enumerate(ret_paths(paths)):
         hx = [e for e in p.events if e.kind == "call" and "Argument" in e.path and "::new_" in e.path]
         okarg = len(hx) == 1 and hx[0].path.endswith("new_lower_hex") and strip_refs(hx[0].args[0]) == ("param", 3)
